@@ -7,7 +7,10 @@
      pd_coordinator.go       handleDataNodes (loop body), doCheckNamespaces, handleNamespaceMigrate,
                              addNamespaceToNode, removeNamespaceFromNode, removeNamespaceFromRemovings,
                              processRemovingNodes, checkIfAnyPending
-     pd_api.go               MarkNodeAsRemoving, SwitchAutoBalance
+     pd_api.go               MarkNodeAsRemoving, SwitchAutoBalance, CreateNamespace / checkAndUpdateNamespacePartitions
+     pd_learner_coord.go     doCheckNamespacesForLearner, addNsLearnerToNode, updateNsLearnerLeader,
+                             removeNsLearnerFromNode, removeNsAllLearners, SwitchStartLearner (the learner placement
+                             driver: a second coordinator process writing the same register key)
      PDRegister.UpdateNamespacePartReplicaInfo  (compare-and-swap on the modification index)
    Scope: one namespace with one partition. What the coordinator cannot decide itself enters as data:
    the registered data-node set, the HTTP answers of the data nodes (member list / synced), the clock,
@@ -44,10 +47,11 @@ Record rinfo := mkInfo {
   raft_ids   : list (N * N);           (* RaftIDs: node -> replica id *)
   removings  : list (N * (N * N));     (* Removings: node -> (RemoveTime, RemoveReplicaID) *)
   max_id     : N;                      (* MaxRaftID *)
+  learners   : list N;                 (* LearnerNodes[role] of the one learner role, in order; their ids live in RaftIDs too *)
   epoch      : N                       (* register modification index the value was read at *)
 }.
 Definition set_epoch (i : rinfo) (e : N) : rinfo :=
-  mkInfo (raft_nodes i) (raft_ids i) (removings i) (max_id i) e.
+  mkInfo (raft_nodes i) (raft_ids i) (removings i) (max_id i) (learners i) e.
 
 (* GetISR *)
 Definition isr (i : rinfo) : list N := filter (fun n => negb (ahas n (removings i))) (raft_nodes i).
@@ -57,13 +61,13 @@ Definition is_quorum (replica : N) (i : rinfo) : bool := replica / 2 <? len (isr
 Definition raft_id_of (i : rinfo) (n : N) : N := match aget n (raft_ids i) with Some x => x | None => 0 end.
 (* Removings[n] = RemovingInfo{now, RaftIDs[n]} *)
 Definition mark_removing (i : rinfo) (n now : N) : rinfo :=
-  mkInfo (raft_nodes i) (raft_ids i) (aset n (now, raft_id_of i n) (removings i)) (max_id i) (epoch i).
+  mkInfo (raft_nodes i) (raft_ids i) (aset n (now, raft_id_of i n) (removings i)) (max_id i) (learners i) (epoch i).
 (* MaxRaftID++ ; RaftIDs[n] = MaxRaftID ; RaftNodes = append(RaftNodes, n) *)
 Definition add_node (i : rinfo) (n : N) : rinfo :=
-  mkInfo (raft_nodes i ++ [n]) (aset n (max_id i + 1) (raft_ids i)) (removings i) (max_id i + 1) (epoch i).
+  mkInfo (raft_nodes i ++ [n]) (aset n (max_id i + 1) (raft_ids i)) (removings i) (max_id i + 1) (learners i) (epoch i).
 Definition drop_node (i : rinfo) (n : N) : rinfo :=
   mkInfo (filter (fun x => negb (x =? n)) (raft_nodes i)) (aremove n (raft_ids i)) (aremove n (removings i))
-         (max_id i) (epoch i).
+         (max_id i) (learners i) (epoch i).
 
 (* ---------- answers of the data nodes (HTTP) ---------- *)
 (* node -> (members answer (None = request fails), synced answer); a node without entry is unreachable *)
@@ -247,15 +251,18 @@ Record st := mkSt {
   s_auto     : bool;              (* autoBalance *)
   s_waiting  : option N;          (* waitingMigrateNamespace[ns][partition] *)
   s_rmnodes  : list (N * rmstate);(* removingNodes *)
-  s_now      : N                  (* clock, minutes *)
+  s_now      : N;                 (* clock, minutes *)
+  (* the learner placement driver (a second coordinator process on the same register) *)
+  s_lnodes   : list (N * bool);   (* its learnerNodes: node, whether the node has this driver's learner role *)
+  s_lstart   : option bool        (* the register's "need_start_learner" key: unset / false / true *)
 }.
 
 Definition upd_reg (s : st) (r : reg) : st :=
   mkSt (s_replica s) r (s_ans s) (s_nodes s) (s_nepoch s) (s_stable s) (s_unstable s) (s_auto s)
-       (s_waiting s) (s_rmnodes s) (s_now s).
+       (s_waiting s) (s_rmnodes s) (s_now s) (s_lnodes s) (s_lstart s).
 Definition upd_flags (s : st) (r : reg) (unstable : bool) (waiting : option N) : st :=
   mkSt (s_replica s) r (s_ans s) (s_nodes s) (s_nepoch s) (s_stable s) unstable (s_auto s)
-       waiting (s_rmnodes s) (s_now s).
+       waiting (s_rmnodes s) (s_now s) (s_lnodes s) (s_lstart s).
 
 (* getCurrentNodesWithEpoch(nil) / getCurrentNodes(nil): data nodes that are not being removed from the cluster *)
 Definition avail_nodes (s : st) : list N := filter (fun n => negb (ahas n (s_rmnodes s))) (s_nodes s).
@@ -323,7 +330,7 @@ Definition do_check (s : st) (full : bool) (place_all place_avail : placement) :
       else check_finish s full false r1 (s_unstable s) None check_ok false w1.
 
 (* ---------- handleDataNodes: one watch event (isMaster = true) ---------- *)
-Definition nodes_event (s : st) (l : list N) : st * bool :=
+Definition nodes_event (s : st) (l : list N) (ll : list (N * bool)) : st * bool :=
   let old := s_nodes s in
   let lost := existsb (fun o => negb (mem o l)) old in
   let ne1 := if lost then s_nepoch s + 1 else s_nepoch s in
@@ -331,7 +338,7 @@ Definition nodes_event (s : st) (l : list N) : st * bool :=
   let joined := existsb (fun n => negb (mem n old)) l in
   let check := lost || joined in
   (mkSt (s_replica s) (s_reg s) (s_ans s) l (if check then ne1 + 1 else ne1) stable
-        (if check then true else s_unstable s) (s_auto s) (s_waiting s) (s_rmnodes s) (s_now s), check).
+        (if check then true else s_unstable s) (s_auto s) (s_waiting s) (s_rmnodes s) (s_now s) ll (s_lstart s), check).
 
 (* ---------- addNodeToNamespaceAndWaitReady, as far as it gets before its monitor channel is closed ----------
    (the harness closes the channel at the first register update attempt, or beforehand for processRemovingNodes;
@@ -357,7 +364,8 @@ Definition add_and_wait (env : answers) (r : reg) (place : placement) : awres * 
 (* ---------- pd_api.go MarkNodeAsRemoving ---------- *)
 Definition mark_node (s : st) (n : N) : st :=
   mkSt (s_replica s) (s_reg s) (s_ans s) (s_nodes s) (s_nepoch s) (s_stable s) (s_unstable s) (s_auto s)
-       (s_waiting s) (if ahas n (s_rmnodes s) then s_rmnodes s else (n, RMarked) :: s_rmnodes s) (s_now s).
+       (s_waiting s) (if ahas n (s_rmnodes s) then s_rmnodes s else (n, RMarked) :: s_rmnodes s) (s_now s)
+       (s_lnodes s) (s_lstart s).
 
 (* ---------- processRemovingNodes (called with a closed monitor channel) ---------- *)
 Definition rm_set (k : N) (v : rmstate) (m : list (N * rmstate)) : list (N * rmstate) :=
@@ -432,13 +440,14 @@ Definition process_removing (s : st) (place : placement) : st * bool * list atte
     match check_pending (s_ans s) info0 rm with
     | Some rm' =>
         (mkSt (s_replica s) (s_reg s) (s_ans s) (s_nodes s) (s_nepoch s) (s_stable s) (s_unstable s) (s_auto s)
-              (s_waiting s) rm' (s_now s), false, [])
+              (s_waiting s) rm' (s_now s) (s_lnodes s) (s_lstart s), false, [])
     | None =>
         let a := fold_left (proc_node (s_replica s) (s_ans s) (s_now s) (s_nodes s) place info0)
                            (map fst rm) (mkPacc rm (s_reg s) false false [] false) in
         (* a panic unwinds before pdCoord.removingNodes is assigned *)
         (mkSt (s_replica s) (p_reg a) (s_ans s) (s_nodes s) (s_nepoch s) (s_stable s) (s_unstable s) (s_auto s)
-              (s_waiting s) (if p_chg a && negb (p_panic a) then p_rm a else rm) (s_now s), p_panic a, p_atts a)
+              (s_waiting s) (if p_chg a && negb (p_panic a) then p_rm a else rm) (s_now s) (s_lnodes s) (s_lstart s),
+         p_panic a, p_atts a)
     end
   end.
 
@@ -461,7 +470,7 @@ Fixpoint swap_loop (leader : N) (orig : list N) (idx : nat) (ns : rinfo) (r : re
   | [] => (false, ns, r, moved, atts)
   | x :: rest =>
       if x =? leader then
-        let ns1 := mkInfo (swap_to_front (raft_nodes ns) idx) (raft_ids ns) (removings ns) (max_id ns) (epoch ns) in
+        let ns1 := mkInfo (swap_to_front (raft_nodes ns) idx) (raft_ids ns) (removings ns) (max_id ns) (learners ns) (epoch ns) in
         match reg_update r ns1 (epoch ns1) with
         | (r', Some ns', a) => swap_loop leader rest (S idx) ns' r' true (atts ++ [a])
         | (r', None, a) => (true, ns1, r', true, atts ++ [a])
@@ -526,7 +535,7 @@ Definition rebalance (s : st) (place : placement) : st * bres * list attempt :=
 
 (* ---------- namespace creation: pd_api.go CreateNamespace -> checkAndUpdateNamespacePartitions ->
    place_driver.go allocNamespaceRaftNodes (where start layouts come from) ---------- *)
-Definition empty_info : rinfo := mkInfo [] [] [] 0 0.
+Definition empty_info : rinfo := mkInfo [] [] [] 0 [] 0.
 (* replicaInfo.RaftNodes = proposed list; for each: MaxRaftID++, RaftIDs[nid] = MaxRaftID; written unless not a quorum *)
 Definition create_partition (replica : N) (l : list N) : option rinfo :=
   let i := fold_left add_node l empty_info in
@@ -539,9 +548,87 @@ Definition create_namespace (replica ncur : N) (place : option (list (list N))) 
        | Some ls => (COk, map (create_partition replica) ls)
        end.
 
+(* ---------- the learner placement driver: pd_learner_coord.go ---------- *)
+Definition with_learners (i : rinfo) (ids : list (N * N)) (mx : N) (l : list N) : rinfo :=
+  mkInfo (raft_nodes i) ids (removings i) mx l (epoch i).
+Fixpoint index_of (k : N) (l : list N) : option nat :=
+  match l with
+  | [] => None
+  | x :: r => if x =? k then Some O else match index_of k r with Some i => Some (S i) | None => None end
+  end.
+Inductive lcode := LOk | LErr | LRegErr.
+Definition loutcome := (lcode * reg * rinfo * list attempt)%type.
+
+(* addNsLearnerToNode *)
+Definition learner_add (r : reg) (info : rinfo) (nid : N) : loutcome :=
+  if mem nid (learners info) then (LOk, r, info, [])
+  else let ns := with_learners info (aset nid (max_id info + 1) (raft_ids info)) (max_id info + 1) (learners info ++ [nid]) in
+       match reg_update r ns (epoch ns) with
+       | (r', Some ns', a) => (LOk, r', ns', [a])
+       | (r', None, a) => (LRegErr, r', info, [a])
+       end.
+(* updateNsLearnerLeader *)
+Definition learner_leader (r : reg) (info : rinfo) (nid : N) : loutcome :=
+  match index_of nid (learners info) with
+  | None => (LOk, r, info, [])
+  | Some idx =>
+      let ns := with_learners info (raft_ids info) (max_id info) (swap_to_front (learners info) idx) in
+      match reg_update r ns (epoch ns) with
+      | (r', Some ns', a) => (LOk, r', ns', [a])
+      | (r', None, a) => (LRegErr, r', info, [a])
+      end
+  end.
+(* removeNsLearnerFromNode *)
+Definition learner_remove (lnodes : list (N * bool)) (r : reg) (info : rinfo) (nid : N) (check : bool) : loutcome :=
+  if check && ahas nid lnodes then (LErr, r, info, [])
+  else let l' := filter (fun x => negb (x =? nid)) (learners info) in
+       if len l' =? len (learners info) then (LErr, r, info, [])
+       else let ns := with_learners info (aremove nid (raft_ids info)) (max_id info) l' in
+            match reg_update r ns (epoch ns) with
+            | (r', Some ns', a) => (LOk, r', ns', [a])
+            | (r', None, a) => (LErr, r', info, [a])
+            end.
+(* removeNsAllLearners *)
+Definition learner_remove_all (r : reg) (info : rinfo) : loutcome :=
+  match learners info with
+  | [] => (LOk, r, info, [])
+  | _ =>
+      let ns := with_learners info (fold_left (fun m n => aremove n m) (learners info) (raft_ids info)) (max_id info) [] in
+      match reg_update r ns (epoch ns) with
+      | (r', Some ns', a) => (LOk, r', ns', [a])
+      | (r', None, a) => (LErr, r', info, [a])
+      end
+  end.
+(* doCheckNamespacesForLearner (one namespace, one partition, no filtered namespaces) *)
+Definition learner_check (s : st) : reg * list attempt :=
+  let r0 := s_reg s in
+  let info := r_info r0 in
+  match s_lstart s with
+  | None => (r0, [])
+  | Some false => let '(_, r, _, w) := learner_remove_all r0 info in (r, w)
+  | Some true =>
+      if len (isr info) <=? s_replica s / 2 then (r0, [])
+      else
+        let lids := learners info in
+        let '(r1, info1, w1) :=
+          match find (fun n => ahas n (s_lnodes s)) lids with
+          | Some m => if match lids with x :: _ => x =? m | [] => true end then (r0, info, [])
+                      else let '(_, r, i, w) := learner_leader r0 info m in (r, i, w)
+          | None => (r0, info, [])
+          end in
+        let mine := map fst (filter (fun e => snd e) (s_lnodes s)) in
+        let '(r2, _, w2) :=
+          fold_left (fun (acc : reg * rinfo * list attempt) n =>
+                       let '(r, i, w) := acc in
+                       if mem n lids then acc
+                       else let '(_, r', i', w') := learner_add r i n in (r', i', w ++ w'))
+                    mine (r1, info1, w1) in
+        (r2, w2)
+  end.
+
 (* ---------- events ---------- *)
 Inductive event :=
-  | ENodes (l : list N)
+  | ENodes (l : list N) (ll : list (N * bool))   (* registered data nodes; registered learner nodes *)
   | EAnswer (l : list (N * option (option (list (N * N)) * bool)))   (* None = node unreachable *)
   | ETick (d : N)
   | ECheck (full : bool) (place_all place_avail : placement)
@@ -553,7 +640,13 @@ Inductive event :=
   | EAuto (b : bool)
   | EBalance (place : placement)
   | EMarkNode (n : N)
-  | EProcess (place : placement).
+  | EProcess (place : placement)
+  | ELCheck
+  | ELStart (b : bool)
+  | ELAdd (n : N)
+  | ELLeader (n : N)
+  | ELRemove (n : N) (check : bool)
+  | ELRemoveAll.
 
 Definition set_answers (env : answers) (l : list (N * option (option (list (N * N)) * bool))) : answers :=
   fold_left (fun e p => match snd p with
@@ -561,17 +654,17 @@ Definition set_answers (env : answers) (l : list (N * option (option (list (N * 
                         | Some a => aset (fst p) a e
                         end) l env.
 
-Inductive ret := RCode (c : code) | RBool (b : bool) | RNone | RPair (a b : bool) | RPanic.
+Inductive ret := RCode (c : code) | RBool (b : bool) | RNone | RPair (a b : bool) | RPanic | RL (c : lcode).
 
 Definition step (s : st) (e : event) : st * ret * list attempt :=
   match e with
-  | ENodes l => let '(s', b) := nodes_event s l in (s', RBool b, [])
+  | ENodes l ll => let '(s', b) := nodes_event s l ll in (s', RBool b, [])
   | EAnswer l =>
       (mkSt (s_replica s) (s_reg s) (set_answers (s_ans s) l) (s_nodes s) (s_nepoch s) (s_stable s)
-            (s_unstable s) (s_auto s) (s_waiting s) (s_rmnodes s) (s_now s), RNone, [])
+            (s_unstable s) (s_auto s) (s_waiting s) (s_rmnodes s) (s_now s) (s_lnodes s) (s_lstart s), RNone, [])
   | ETick d =>
       (mkSt (s_replica s) (s_reg s) (s_ans s) (s_nodes s) (s_nepoch s) (s_stable s)
-            (s_unstable s) (s_auto s) (s_waiting s) (s_rmnodes s) (s_now s + d), RNone, [])
+            (s_unstable s) (s_auto s) (s_waiting s) (s_rmnodes s) (s_now s + d) (s_lnodes s) (s_lstart s), RNone, [])
   | ECheck full pa pv => let '(s', p, w) := do_check s full pa pv in (s', if p then RPanic else RNone, w)
   | EMigrate delta place =>
       let '(c, r, _, w) := handle_migrate (s_replica s) (s_ans s) (s_now s) (s_reg s) (s_nepoch s)
@@ -587,12 +680,21 @@ Definition step (s : st) (e : event) : st * ret * list attempt :=
   | EFail k => (upd_reg s (mkReg (r_info (s_reg s)) (r_counter (s_reg s)) k), RNone, [])
   | EAuto b =>
       (mkSt (s_replica s) (s_reg s) (s_ans s) (s_nodes s) (s_nepoch s) (s_stable s)
-            (s_unstable s) b (s_waiting s) (s_rmnodes s) (s_now s), RNone, [])
+            (s_unstable s) b (s_waiting s) (s_rmnodes s) (s_now s) (s_lnodes s) (s_lstart s), RNone, [])
   | EBalance place =>
       let '(s', b, w) := rebalance s place in
       (s', match b with BRet m a => RPair m a | BPanic => RPanic end, w)
   | EMarkNode n => (mark_node s n, RNone, [])
   | EProcess place => let '(s', p, w) := process_removing s place in (s', if p then RPanic else RNone, w)
+  | ELCheck => let '(r, w) := learner_check s in (upd_reg s r, RNone, w)
+  | ELStart b =>
+      (mkSt (s_replica s) (s_reg s) (s_ans s) (s_nodes s) (s_nepoch s) (s_stable s)
+            (s_unstable s) (s_auto s) (s_waiting s) (s_rmnodes s) (s_now s) (s_lnodes s) (Some b), RNone, [])
+  | ELAdd n => let '(c, r, _, w) := learner_add (s_reg s) (r_info (s_reg s)) n in (upd_reg s r, RL c, w)
+  | ELLeader n => let '(c, r, _, w) := learner_leader (s_reg s) (r_info (s_reg s)) n in (upd_reg s r, RL c, w)
+  | ELRemove n chk =>
+      let '(c, r, _, w) := learner_remove (s_lnodes s) (s_reg s) (r_info (s_reg s)) n chk in (upd_reg s r, RL c, w)
+  | ELRemoveAll => let '(c, r, _, w) := learner_remove_all (s_reg s) (r_info (s_reg s)) in (upd_reg s r, RL c, w)
   end.
 
 (* a run: the attempts of every step, in order *)
@@ -601,4 +703,4 @@ Definition run_step (acc : st * list attempt) (e : event) : st * list attempt :=
 Definition run (s : st) (evs : list event) : st * list attempt := fold_left run_step evs (s, []).
 
 Definition init_state (replica : N) (info : rinfo) (auto : bool) : st :=
-  mkSt replica (mkReg (set_epoch info 1) 1 0) [] [] 0 0 false auto None [] 1000.
+  mkSt replica (mkReg (set_epoch info 1) 1 0) [] [] 0 0 false auto None [] 1000 [] None.
